@@ -17,6 +17,8 @@
 (*           call) against redirections on the call                        *)
 (*   sub     definitions / unset / typeset -fr inside ( ), a pipeline      *)
 (*           stage and $( ), function bodies that are subshells            *)
+(*   ns      a function and a variable both named v: separate namespaces   *)
+(* The families in Wide get a main part one command longer.                *)
 (* In enumeration mode (Stepwise = FALSE) every scenario is one state and  *)
 (* Emit prints the script text and what Functions!Expect demands of it;    *)
 (* harness/g12 runs the script on the real shell and compares.  With       *)
@@ -25,7 +27,7 @@
 (***************************************************************************)
 EXTENDS ShFunctions, Json, IOUtils
 
-CONSTANTS Fams, LB, LM, Stepwise
+CONSTANTS Fams, LB, LM, Wide, Stepwise
 
 VARIABLES fam, sc, S
 vars == <<fam, sc, S>>
@@ -76,6 +78,10 @@ SubM == {CCall("f", <<>>), CCall("g", <<>>), CSub(<<CDef("g", <<CSt(1)>>), CCall
          CSub(<<CUnset(<<"f">>, 0), CObs>>), CList(""), CMkro(<<"f">>), CCs(<<CSt(2)>>)}
 SubP == {0, 1}     \* f() { ... } or f() ( ... )
 
+\* ---- family ns ----------------------------------------------------------
+NsM == {CDef("v", <<CObs, CRet(6)>>), CAsg("v", "1"), CUnset(<<"v">>, 0), CUnsetV("v"), CCall("v", <<"a">>),
+        CMkro(<<"v">>), CList("np"), CCall("f", <<>>)}
+
 Sc(args, main) == [args |-> args, main |-> main]
 
 \* A scenario of family f is built from a body of f, a body of g, a main
@@ -83,11 +89,14 @@ Sc(args, main) == [args |-> args, main |-> main]
 FBs(f) == CASE f = "pos" -> SeqsUpTo(PosF, LB) [] f = "vars" -> SeqsUpTo(VarF, LB)
             [] f = "tabfn" -> SeqsUpTo(TabF, LB) [] f = "tabmain" -> {<<CSt(3)>>}
             [] f = "redir" -> SeqsUpTo(RedF, LB) [] f = "sub" -> SeqsUpTo(SubF, LB)
+            [] f = "ns" -> {<<CAsg("v", "2"), CCall("v", <<>>), CUnsetV("v")>>}
 GBs(f) == CASE f = "pos" -> PosG [] f = "vars" -> VarG [] f = "tabfn" -> TabG [] f = "tabmain" -> {<<>>}
-            [] f = "redir" -> {<<CObs>>} [] f = "sub" -> SubG
-Ms(f) == CASE f = "pos" -> SeqsUpTo(PosM, LM) [] f = "vars" -> SeqsUpTo(VarM, LM)
-           [] f = "tabfn" -> SeqsUpTo(TabM, LM) [] f = "tabmain" -> SeqsUpTo(TabMainM, LM + 1)
-           [] f = "redir" -> SeqsUpTo(RedM, LM) [] f = "sub" -> SeqsUpTo(SubM, LM)
+            [] f = "redir" -> {<<CObs>>} [] f = "sub" -> SubG [] f = "ns" -> {<<>>}
+LMf(f) == LM + (IF f \in Wide THEN 1 ELSE 0)
+Ms(f) == CASE f = "pos" -> SeqsUpTo(PosM, LMf(f)) [] f = "vars" -> SeqsUpTo(VarM, LMf(f))
+           [] f = "tabfn" -> SeqsUpTo(TabM, LMf(f)) [] f = "tabmain" -> SeqsUpTo(TabMainM, LMf(f) + 1)
+           [] f = "redir" -> SeqsUpTo(RedM, LMf(f)) [] f = "sub" -> SeqsUpTo(SubM, LMf(f))
+           [] f = "ns" -> SeqsUpTo(NsM, LMf(f) + 2)
 Xs(f) == CASE f = "pos" -> PosArgs [] f = "redir" -> RedFR \X RedGR [] f = "sub" -> SubP [] OTHER -> {0}
 
 Build(f, fb, gb, m, x) ==
@@ -97,6 +106,7 @@ Build(f, fb, gb, m, x) ==
     [] f = "tabmain" -> Sc(<<>>, <<CDef("f", fb)>> \o m)
     [] f = "redir" -> Sc(<<>>, <<CDefX("f", fb, "lit", 0, x[1]), CDefX("g", gb, "lit", 0, x[2])>> \o m)
     [] f = "sub" -> Sc(<<"x">>, <<CDefX("f", fb, "lit", x, ""), CDef("g", gb)>> \o m)
+    [] f = "ns" -> Sc(<<>>, <<CDef("f", fb)>> \o m)
 
 Init == \E f \in Fams : \E fb \in FBs(f) : \E gb \in GBs(f) : \E m \in Ms(f) : \E x \in Xs(f) :
           /\ fam = f
